@@ -66,6 +66,28 @@ fn to_lib(t: &T) -> Object {
     }
 }
 
+fn to_pdfobj(t: &T) -> PdfObject {
+    use oxidize_pdf::parser::objects::{PdfArray, PdfDictionary, PdfName, PdfString};
+    match t {
+        T::Null => PdfObject::Null,
+        T::Bool(b) => PdfObject::Boolean(*b),
+        T::Int(i) => PdfObject::Integer(*i),
+        T::Real(r) => PdfObject::Real(*r),
+        T::Str(s) => PdfObject::String(PdfString(s.as_bytes().to_vec())),
+        T::Bytes(b) => PdfObject::String(PdfString(b.clone())),
+        T::Name(n) => PdfObject::Name(PdfName(n.clone())),
+        T::Arr(a) => PdfObject::Array(PdfArray(a.iter().map(to_pdfobj).collect())),
+        T::Dict(d) => {
+            let mut dict = PdfDictionary::new();
+            for (k, v) in d {
+                dict.0.insert(PdfName(k.clone()), to_pdfobj(v));
+            }
+            PdfObject::Dictionary(dict)
+        }
+        T::Ref(n, g) => PdfObject::Reference(*n, *g),
+    }
+}
+
 fn real_close(a: f64, b: f64, lib: bool) -> bool {
     let tol = 5e-7 + if lib { 2e-7 } else { 1e-14 } * a.abs();
     (a - b).abs() <= tol
@@ -270,13 +292,16 @@ pub fn check(c: &Case) -> Outcome {
     o.label_if(tr.nonascii_name, "non-ascii-name");
     o.label_if(c.stream.is_some(), "stream");
     let lib_obj = to_lib(&c.tree);
-    let modes: &[(bool, &str)] = if c.stream.is_some() { &[(false, "direct")] } else { &[(false, "direct"), (true, "objstm")] };
-    for (in_os, mode) in modes {
+    // the writer has three object serializers: streaming, object-stream buffer (hook H1), and the generic one of the
+    // incremental-update writer (hook H1b; it takes parsed objects and does not accept streams)
+    let modes: &[(u8, &str)] = if c.stream.is_some() { &[(0, "direct")] } else { &[(0, "direct"), (1, "objstm"), (2, "incremental")] };
+    for (m, mode) in modes {
         let obj = match (&c.stream, &lib_obj) {
             (Some(data), Object::Dictionary(d)) => Object::Stream(d.clone(), data.clone()),
             _ => lib_obj.clone(),
         };
-        let bytes = match oxidize_pdf::writer::verif_hooks::serialize_object(&obj, *in_os) {
+        let ser = if *m == 2 { oxidize_pdf::writer::verif_hooks::serialize_incremental_object(&to_pdfobj(&c.tree)) } else { oxidize_pdf::writer::verif_hooks::serialize_object(&obj, *m == 1) };
+        let bytes = match ser {
             Ok(b) => b,
             Err(e) => {
                 o.fail("C09/serializes", format!("mode={mode}"), format!("{e}"));
@@ -447,7 +472,7 @@ fn strategy() -> impl Strategy<Value = Case> {
 }
 
 fn run(ctx: &Ctx) {
-    ctx.run_sub("tree", ctx.tier.pick(30_000, 600_000), strategy, check);
+    ctx.run_sub("tree", ctx.tier.pick(600_000, 4_000_000), strategy, check);
 }
 
 fn replay(ctx: &Ctx, sub: &str, case: &Value) -> Result<Outcome, String> {
